@@ -47,7 +47,7 @@ class Pool:
         from valjean.javert import mpl
         # plots are stubbed: matplotlib's own writing is outside the property
         mpl.MplPlot.save = lambda self, name: open(name, 'wb').write(b'stub')
-        self.results, self.fps, self.images = [], [], []
+        self.results, self.fps, self.images, self.plot_fps = [], [], [], []
         self.rpr = rpr
         self.Rst = Rst
         for i in range(NPOOL):
@@ -68,7 +68,15 @@ class Pool:
             for fp in fps:
                 self.plot_id.setdefault(fp, f'p{len(self.plot_id)}')
             self.images.append([self.plot_id[fp] for fp in fps])
+            self.plot_fps.append(fps)
         self.anchor_id = {fp: i for i, fp in enumerate(self.fps)}
+
+    def canon(self, text):
+        '''plot fingerprints inside titles / paths -> the ids the model uses'''
+        if 'plot_' in text:
+            for fp, ident in self.plot_id.items():
+                text = text.replace(fp, ident)
+        return text
 
     def new_rst(self):
         return self.Rst(self.rpr.Representation(self.rpr.FullRepresenter()))
@@ -77,7 +85,7 @@ class Pool:
 # --------------------------------------------------------------------------
 # generation
 
-def gen_tree(rng, max_depth, flaw):
+def gen_tree(rng, max_depth, flaw, pool=None):
     '''flaw: None | 'bad' | 'dup' | 'index' | 'deep' '''
     nodes = []        # (depth, node) of all sections but the root
 
@@ -114,6 +122,14 @@ def gen_tree(rng, max_depth, flaw):
         deep = [n for d, n in nodes if d >= 2]
         if deep:
             rng.choice(deep)[0] = 'index'
+    elif flaw == 'static-css':
+        sub = [['valjean.css', results(), [[rng.choice(GOOD), results(), []]] if rng.random() < 0.8 else []]]
+        root[2] = [k for k in root[2] if k[0] != '.static'] + [['.static', results(), sub]]
+    elif flaw == 'figure-dir':
+        i = rng.choice([j for j in range(NPOOL) if pool.plot_fps[j]])
+        name = f'plot_{pool.plot_fps[i][0]}.png'
+        sub = [[name, [], [[rng.choice(GOOD), [], []]] if rng.random() < 0.8 else []]]
+        root[2] = [k for k in root[2] if k[0] != 'figures'] + [['figures', [i] if rng.random() < 0.8 else [], sub]]
     elif flaw == 'deep':
         # a chain down to depth 5 (six levels): one more than the headers support
         node = root
@@ -124,7 +140,7 @@ def gen_tree(rng, max_depth, flaw):
     return root
 
 
-def gen_cases(ctx):
+def gen_cases(ctx, pool):
     rng = ctx.rng
     quick = ctx.tier == 'quick'
 
@@ -148,6 +164,16 @@ def gen_cases(ctx):
         ['M', [], [['A', [], [['B', [], [['C', [], [['D', [1], []]]]]]]]]],
         ['M', [], [['A', [], [['B', [], [['C', [], [['D', [1], [leaf('E', [2])]]]]]]]]]],
         ['M', [], [['A', [], [['A', [], [['A', [], [['A', [1], []]]]]]]], leaf('B', [2])]],
+        ['M', [0], [['conf.py', [], [leaf('x', [1])]]]],
+        ['M', [0], [['index.rst', [], [leaf('x', [1])]]]],
+        ['M', [0], [leaf('A', [1]), ['A.rst', [], [leaf('x', [2])]]]],
+        ['M', [0], [['B', [], [['A.rst', [], [leaf('x', [2])]], leaf('A', [1])]]]],
+        ['M', [0], [leaf('conf.py', [1]), leaf('index.rst'), ['B', [], [['conf.py', [], [leaf('x')]]]]]],
+        ['M', [0], [['.static', [], [['valjean.css', [1], [leaf('x', [2])]]]]]],
+        ['M', [0], [['.static', [], [leaf('valjean.css', [1])]], ['B', [], [['.static', [], [['valjean.css', [], [leaf('x')]]]]]]]],
+        ['M', [0], [['figures', [], [[f'plot_{pool.plot_fps[0][0]}.png', [], [leaf('x', [1])]]]]]],
+        ['M', [], [['figures', [], [[f'plot_{pool.plot_fps[0][0]}.png', [], [leaf('x', [1])]]]]]],
+        ['M', [0], [['figures', [], [leaf(f'plot_{pool.plot_fps[0][0]}.png', [1])]]]],
     ]
     ctx.count('corpus', len(cases))
     nrand = 420 if quick else 6000
@@ -164,7 +190,11 @@ def gen_cases(ctx):
             flaw = 'nested-index'
         elif r < 0.33:
             flaw = 'deep'
-        cases.append(gen_tree(rng, rng.choice([1, 2, 3, 4, 4, 4]), flaw))
+        elif r < 0.36:
+            flaw = 'static-css'
+        elif r < 0.39:
+            flaw = 'figure-dir'
+        cases.append(gen_tree(rng, rng.choice([1, 2, 3, 4, 4, 4]), flaw, pool))
     ctx.count('random', nrand)
     return cases
 
@@ -248,7 +278,7 @@ def sections(tree, chain=()):
         yield from sections(kid, chain + (kid[0],))
 
 
-def unwritable_reason(tree):
+def unwritable_reason(tree, pool):
     '''why no directory can satisfy the property for this tree (None if one can)'''
     for chain, node in sections(tree):
         if len(chain) >= 5:
@@ -259,6 +289,7 @@ def unwritable_reason(tree):
     if len(set(files)) != len(files):
         return 'two sections have the same page path'
     files += [('conf.py',), ('.static', 'valjean.css')]
+    files += [('figures', f'plot_{fp}.png') for _, node in sections(tree) for i in node[1] for fp in pool.plot_fps[i]]
     dirs = {f[:k] for f in files for k in range(1, len(f))}
     both = dirs & set(files)
     if both:
@@ -270,7 +301,7 @@ def oracle(ctx, tree, obs, pool):
     def fail(what, key):
         ctx.oracle_failure(f'{what} :: {json.dumps(tree)[:400]}', tree, key=key)
 
-    reason = unwritable_reason(tree)
+    reason = unwritable_reason(tree, pool)
     if obs['raised']:
         if obs['files']:
             fail(f'report rejected ({obs["raised"]}) after {obs["files"][:6]} were written', 'rejected-after-writing')
@@ -322,12 +353,15 @@ def oracle(ctx, tree, obs, pool):
 def coq_tree(node, pool):
     title, res, kids = node
     results = ['(mk_result ' + cn(i) + ' ' + clist([cstr(p) for p in pool.images[i]]) + ')' for i in res]
-    return ('(Node ' + cstr(title) + ' ' + clist(results) + ' '
+    return ('(Node ' + cstr(pool.canon(title)) + ' ' + clist(results) + ' '
             + clist([coq_tree(kid, pool) for kid in kids]) + ')')
 
 
+CANON = [lambda text: text]
+
+
 def coq_path(rel):
-    return clist([cstr(c) for c in rel.split('/')])
+    return clist([cstr(CANON[0](c)) for c in rel.split('/')])
 
 
 def coq_obs(obs):
@@ -344,7 +378,9 @@ def coq_obs(obs):
 def load():
     common.import_repo()
     from valjean.javert.test_report import TestReport
-    return Pool(), TestReport
+    pool = Pool()
+    CANON[0] = pool.canon
+    return pool, TestReport
 
 
 def depth_of(tree):
@@ -356,10 +392,11 @@ def run(ctx):
     ctx.rule = ('corpus (index / invalid / duplicate / empty titles, reserved names, depth limit) + random trees '
                 '(depth <= 5 levels, 0-4 children, titles from an alphabet with index, figures, conf.py, .static, '
                 'x.rst ...; flaws injected at controlled rates: invalid title 8%, duplicate siblings 8%, top-level '
-                'index 5%, nested index 5%, six levels 7%), results from a pool of 12 real TestEqual/TestStudent '
+                'index 5%, nested index 5%, six levels 7%, sub-sections below .static/valjean.css 3% and below '
+                'figures/plot_<fingerprint>.png 3%), results from a pool of 12 real TestEqual/TestStudent '
                 'results with distinct fingerprints, 8 of them with a plot; non-trivial = written with >= 3 pages '
                 'or rejected; distinct by tree')
-    cases = gen_cases(ctx)
+    cases = gen_cases(ctx, pool)
     wdir = os.path.join(ctx.wd(), 'c20')
     done = []
     for tree in cases:
